@@ -32,7 +32,10 @@ fn circuit(g: usize) -> Shape {
 }
 
 fn honest<G: AffineRepr + 'static>(shape: &Shape, seed: u64, cap: usize) -> Option<(std::rc::Rc<std::cell::RefCell<Shared<G>>>, R1CSProof<G>, PedersenGens<G>, BulletproofGens<G>)> {
-    let pc = pc_for::<G>(&shape.name, seed);
+    honest_with::<G>(shape, seed, cap, pc_for::<G>(&shape.name, seed))
+}
+
+fn honest_with<G: AffineRepr + 'static>(shape: &Shape, seed: u64, cap: usize, pc: PedersenGens<G>) -> Option<(std::rc::Rc<std::cell::RefCell<Shared<G>>>, R1CSProof<G>, PedersenGens<G>, BulletproofGens<G>)> {
     let bp = BulletproofGens::<G>::new(cap, 1);
     let shr = new_shared::<G>(shape, &Default::default(), Box::new(PlainVals::<G::ScalarField>::new(HashMap::new(), seed)));
     let (p, _) = prove_shape(shape, &shr, &pc, &bp, seed);
@@ -284,6 +287,36 @@ pub fn c08_native<G: AffineRepr + 'static>(seed: u64, maxlen: usize) -> Checks {
         }
     }
     out.push((format!("{} hostile proofs / byte strings: none panics, decoding failures are FormatError {}", total, first), bad == 0));
+    // honest batches whose members have different sizes, in every order (ascending, descending, largest in the middle)
+    {
+        let sizes = [1usize, 2, 5, 3, 9, 4];
+        let common = pc_for::<G>("mixed-size-batch", seed);
+        let members: Vec<_> = sizes.iter().filter_map(|g| { let sh = circuit(*g); honest_with::<G>(&sh, seed, 16, common).map(|x| (sh, x)) }).collect();
+        let orders: Vec<Vec<usize>> = vec![vec![0, 1, 2], vec![2, 1, 0], vec![4, 0], vec![4, 2, 5, 0], vec![0, 4, 1], vec![3, 4, 5, 2, 1, 0]];
+        let mut failed = vec![];
+        if members.len() == sizes.len() {
+            let pc = members[0].1 .2;
+            let bp = BulletproofGens::<G>::new(16, 1);
+            for ord in orders {
+                let r = catch(|| {
+                    let mut ts: Vec<merlin::Transcript> = ord.iter().map(|i| new_verifier_transcript(&members[*i].0)).collect();
+                    let forks: Vec<_> = ord.iter().map(|i| fork_for_verifier(&members[*i].0, &members[*i].1 .0)).collect();
+                    let mut insts = vec![];
+                    for (k, vt) in ts.iter_mut().enumerate() {
+                        insts.push((build_verifier(&members[ord[k]].0, &forks[k], vt), &members[ord[k]].1 .1));
+                    }
+                    let mut wr = rand_chacha::ChaChaRng::seed_from_u64(seed);
+                    batch_verify(&mut wr, insts, &pc, &bp).is_ok()
+                });
+                if !matches!(r, Ok(true)) {
+                    failed.push(format!("{:?} -> {:?}", ord.iter().map(|i| sizes[*i]).collect::<Vec<_>>(), r));
+                }
+            }
+        } else {
+            failed.push("honest members".into());
+        }
+        out.push((format!("honest batches of mixed sizes in ascending / descending / mixed order are accepted without panic {:?}", failed), failed.is_empty()));
+    }
     // the empty batch
     {
         let pc = PedersenGens::<G>::default();
